@@ -39,6 +39,7 @@ class Builder(object):
         self.layer = None
         self.pending = None               # last extraction awaiting its translate/negate
         self.extractions = []
+        self.scans = []
         self.owner_alias = {}             # pa -> pa_wrapper ...
 
     def rule(self, ok, inst, node, bad, good=''):
@@ -135,6 +136,7 @@ class Builder(object):
         if isinstance(s, ast.Assign) and len(s.targets) == 1:
             return self.assign(s.targets[0], s.value, s, guards)
         if isinstance(s, ast.For):
+            self.scan_bound(s)
             self.walk(s.body, guards)
             return
         if isinstance(s, ast.If):
@@ -146,8 +148,44 @@ class Builder(object):
         if isinstance(s, ast.Expr) and isinstance(s.value, ast.Call):
             return self.call(s.value, s, guards, None)
 
+    def scan_bound(self, loop):
+        """a candidate scan `for i in range(N)` that reads coordinates must cover the whole array it reads"""
+        if not (isinstance(loop.iter, ast.Call) and M.call_name(loop.iter) == 'range' and len(loop.iter.args) == 1
+                and isinstance(loop.target, ast.Name)):
+            return
+        iv = loop.target.id
+        owners = set()
+        for sub in ast.walk(loop):
+            if isinstance(sub, ast.Subscript) and isinstance(sub.value, ast.Attribute) and sub.value.attr == 'data' and U(sub.slice) == iv:
+                c = self.coord_of(sub.value.value)
+                if c:
+                    owners.add(c[1])
+        if not owners:
+            return
+        b = loop.iter.args[0]
+        bv = self.env.get(b.id) if isinstance(b, ast.Name) else None
+        if isinstance(b, ast.Attribute) and b.attr == 'length':
+            c = self.coord_of(b.value)
+            bv = ('len', c[1]) if c else None
+        ok = bv is not None and bv[0] == 'len' and {bv[1]} == owners
+        self.chk.decide(ok, 'ghost-scan-covers-whole-array:' + self.kind, 'scan@%s' % '/'.join(sorted(owners)) + ':%d' % len(self.scans), node=loop,
+                        file=NB, func=self.fn.name,
+                        detail_bad='the candidate scan over the coordinates of `%s` runs to %s (%s), not over every particle currently in that '
+                                   'array: images created earlier (e.g. periodic ghosts in a mixed periodic/mirror domain) are not re-imaged' % (
+                                       '/'.join(sorted(owners)), U(b), bv),
+                        detail_ok='0..%s.length' % '/'.join(sorted(owners)))
+        self.scans.append(loop)
+
     def assign(self, tgt, val, s, guards):
         if isinstance(tgt, ast.Name):
+            if isinstance(val, ast.Attribute) and val.attr == 'length':
+                c = self.coord_of(val.value)
+                if c:
+                    self.env[tgt.id] = ('len', c[1])
+                    return
+            if isinstance(val, ast.Call) and (M.call_name(val) or '').endswith('get_number_of_particles'):
+                self.env[tgt.id] = ('count', U(val))
+                return
             c = self.coord_of(val)
             if c:
                 self.env[tgt.id] = c
